@@ -233,9 +233,14 @@ def gen_program(rng, dom, max_units):
             kinds.add("restrict")
             cur, cur_units = out, [x for x in cur_units if x != u]
         else:
-            other = new()
-            ops.append({"op": "concat", "out": other, "els": [cur]})
-            updates(other, cur_units, rng.randint(1, 3)) if cur_units else None
+            if cur_units and len(cur_units) <= 4 and rng.random() < 0.5:
+                # a freshly built diagram of a DIFFERENT shape over the same variables (paired node indices then diverge in the product)
+                other = build(list(cur_units), 1)
+                updates(other, cur_units, rng.randint(1, 3))
+            else:
+                other = new()
+                ops.append({"op": "concat", "out": other, "els": [cur]})
+                updates(other, cur_units, rng.randint(1, 3)) if cur_units else None
             out = new()
             ops.append({"op": "sum", "a": cur, "b": other, "out": out})
             ops.append({"op": "evalall", "d": other})
